@@ -143,6 +143,157 @@ pub fn score_text(value: i32, root: &Bitboard) -> String {
 }
 
 // ------------------------------------------------------------------------------------------------
+// the same search with the draw-by-repetition rule of the property: a line is worth the draw score (up to the
+// contempt offset) exactly when the position it reaches has then occurred at least three times, counting the
+// game history and the line itself, with no capture or pawn move in between
+
+/// position identity for repetition purposes (placement, side, rights, e.p. field), independent of the engine's hash
+pub fn rep_key(b: &Bitboard) -> u64 {
+    let mut h: u64 = 0xcbf29ce484222325;
+    let mut mix = |x: u64| {
+        h ^= x;
+        h = h.wrapping_mul(0x100000001b3);
+        h ^= h >> 29;
+    };
+    for side in eng::pieces_of(b) {
+        for bb in side {
+            mix(bb);
+        }
+    }
+    mix(b.turn as u64);
+    mix(b.white.king_side_castle as u64 | (b.white.queen_side_castle as u64) << 1 | (b.black.king_side_castle as u64) << 2 | (b.black.queen_side_castle as u64) << 3);
+    mix(b.en_passant_square_shift as u64);
+    h
+}
+
+pub struct RepCtx {
+    /// keys of all positions of the game so far and of the current line, oldest first (the current node is last)
+    pub keys: Vec<u64>,
+    pub contempt: i32,
+    /// +1: a repetition reached at an even ply is worth +contempt to the side to move there (the engine's
+    /// convention), -1: the opposite convention (the property leaves the sign open)
+    pub sign: i32,
+    pub nodes: u64,
+    pub repetition_leaves: u64,
+    /// work bound: once `nodes` exceeds it the search unwinds at once and `aborted` is set (the values are then void)
+    pub limit: u64,
+    pub aborted: bool,
+}
+
+fn quiesce_capped(b: &mut Bitboard, mut alpha: i32, beta: i32, cx: &mut RepCtx) -> i32 {
+    cx.nodes += 1;
+    if cx.nodes > cx.limit {
+        cx.aborted = true;
+        return 0;
+    }
+    let stand = stand_pat(b);
+    let mut best = stand;
+    if best >= beta {
+        return best;
+    }
+    alpha = alpha.max(best);
+    let mut moves: Vec<Move> = legal(b).into_iter().filter(|m| m.is_attack() || m.is_promotion()).collect();
+    moves.sort_by_key(|m| -(m.get_piece_attacked() as i32 * 16 - m.get_piece_moved() as i32));
+    for mv in moves {
+        b.make(mv);
+        let v = -quiesce_capped(b, -beta, -alpha, cx);
+        b.unmake(mv);
+        if cx.aborted {
+            return 0;
+        }
+        if v > best {
+            best = v;
+            if v >= beta {
+                return best;
+            }
+            alpha = alpha.max(v);
+        }
+    }
+    best
+}
+
+fn occurrences(keys: &[u64], half: u32) -> usize {
+    let n = keys.len();
+    let cur = keys[n - 1];
+    let lo = (n - 1).saturating_sub(half as usize);
+    keys[lo..].iter().filter(|&&k| k == cur).count()
+}
+
+pub fn negamax_rep(b: &mut Bitboard, depth: u32, ply: u32, mut alpha: i32, beta: i32, cx: &mut RepCtx) -> i32 {
+    cx.nodes += 1;
+    if cx.nodes > cx.limit {
+        cx.aborted = true;
+        return 0;
+    }
+    cx.keys.push(rep_key(b));
+    let v = (|| {
+        if ply > 0 && occurrences(&cx.keys, b.halfmove_clock) >= 3 {
+            cx.repetition_leaves += 1;
+            return cx.sign * cx.contempt * if ply % 2 == 0 { 1 } else { -1 };
+        }
+        let mut moves = legal(b);
+        if moves.is_empty() {
+            return terminal(b);
+        }
+        if depth == 0 {
+            cx.nodes -= 1;
+            return quiesce_capped(b, alpha, beta, cx);
+        }
+        moves.sort_by_key(|m| -(m.get_piece_attacked() as i32 * 16 - m.get_piece_moved() as i32));
+        let mut best = -INF;
+        for mv in moves {
+            b.make(mv);
+            let v = -negamax_rep(b, depth - 1, ply + 1, -beta, -alpha, cx);
+            b.unmake(mv);
+            if cx.aborted {
+                return 0;
+            }
+            if v > best {
+                best = v;
+                if v >= beta {
+                    return best;
+                }
+                alpha = alpha.max(v);
+            }
+        }
+        best
+    })();
+    cx.keys.pop();
+    v
+}
+
+/// keys of the game `start + moves` up to but excluding the final position (which the search pushes itself)
+pub fn game_keys(start: &Pos, moves: &[Mv]) -> Vec<u64> {
+    let mut keys = Vec::new();
+    let mut p = start.clone();
+    for m in moves {
+        keys.push(rep_key(&eng::board_from_pos(&p)));
+        p = p.apply(*m);
+    }
+    keys
+}
+
+/// exact root value and the exact value of every root move, with the repetition rule
+/// (None when the work bound `limit` was exceeded)
+pub fn root_values_rep(root: &mut Bitboard, history_keys: &[u64], depth: u32, contempt: i32, sign: i32, limit: u64) -> Option<(i32, Vec<(String, i32)>, u64, u64)> {
+    let mut cx = RepCtx { keys: history_keys.to_vec(), contempt, sign, nodes: 0, repetition_leaves: 0, limit, aborted: false };
+    cx.keys.push(rep_key(root));
+    let mut out = Vec::new();
+    let mut best = -INF;
+    for mv in legal(root) {
+        root.make(mv);
+        let v = -negamax_rep(root, depth.saturating_sub(1), 1, -INF, INF, &mut cx);
+        root.unmake(mv);
+        if cx.aborted {
+            return None;
+        }
+        best = best.max(v);
+        out.push((mv.to_uci_string(), v));
+    }
+    Some((best, out, cx.nodes, cx.repetition_leaves))
+}
+
+// ------------------------------------------------------------------------------------------------
 // pruning-free minimax on the independent model (validation of the fast reference)
 
 fn stand_pat_model(p: &Pos) -> i32 {
